@@ -292,12 +292,17 @@ class MailboxData(MailboxDataInterface[Message]):
                                              self.maildir_flags)
             key = maildir.add(maildir_msg)
             filename = key + ':' + maildir_msg.get_info()
-        async with UidList.with_write(self._path) as uidl:
-            fields = {'E': email_id.value.decode('ascii'),
-                      'T': thread_id.value.decode('ascii')}
-            new_rec = Record(uidl.next_uid, fields, filename)
-            uidl.next_uid += 1
-            uidl.set(new_rec)
+        try:
+            async with UidList.with_write(self._path) as uidl:
+                fields = {'E': email_id.value.decode('ascii'),
+                          'T': thread_id.value.decode('ascii')}
+                new_rec = Record(uidl.next_uid, fields, filename)
+                uidl.next_uid += 1
+                uidl.set(new_rec)
+        except BaseException:
+            # do not leave a message behind that was never acknowledged
+            maildir.discard(key)
+            raise
         return Message.from_maildir(
             new_rec.uid, maildir_msg, maildir, key, email_id, thread_id,
             self.maildir_flags)
